@@ -441,7 +441,9 @@ int main(int argc, char **argv) {
     rep.note(base->name + " " + how + " entry=" + std::to_string(entry) + " skip=" + std::to_string(skip));
     rep.stage(0, "input.bin", mutated.data(), mutated.size());
     Outcome oc;
-    RunDecode(*base, mutated, entry, skip, at_end, /*validate=*/true, &oc);
+    // The structural validator / read-everything pass belongs to C03 (it reads attribute values through the public
+    // accessors, e.g. a DT_BOOL attribute holding the byte 247, which UBSan flags inside the accessor, not inside a decode call).
+    RunDecode(*base, mutated, entry, skip, at_end, /*validate=*/c03, &oc);
     const std::string where = base->name + " " + how + " entry=" + std::to_string(entry) + " skip=" + std::to_string(skip) + " status=" + oc.status;
     std::vector<Reporter::Artifact> arts = {{"input.bin", mutated}, {"case.txt", where}};
     const std::string kindname = base->kind == kGeometry ? "geometry" : base->kind == kKeyframes ? "keyframes" : base->kind == kMetadata ? "metadata" : "symbols";
